@@ -338,6 +338,12 @@ fn run_batch(jobs: &[(usize, String, u64)], wedges: &AtomicU64, max_wedges: u64)
             got += 1;
         }
         let _ = ch.wait();
+        let given = (next + 400).min(jobs.len()) - next;
+        if got > 0 && got < given && res.last().map(|r| r.3 != "WEDGED").unwrap_or(false) {
+            // the child ended early: its last run left threads behind (workers that never exit, tasks never
+            // run). Such runs cost a grace period each, so they count towards the early stop like wedges do.
+            wedges.fetch_add(1, Ordering::SeqCst);
+        }
         if got == 0 {
             // the child died without an answer: report the job as such and move on
             let (n, s, _) = &jobs[next];
